@@ -188,6 +188,13 @@ impl Run {
             _ => None,
         }
     }
+    /// the last slot of a completed run (the line under test of a multi-line text)
+    pub fn last(&self) -> Option<&Slot> {
+        match self {
+            Run::Done(o) if o.status => o.slots.last(),
+            _ => None,
+        }
+    }
     pub fn brief(&self) -> String {
         match self {
             Run::Panic(p) => format!("PANIC[{}] {} @{}", p.site, p.message, p.location),
